@@ -109,4 +109,36 @@ def runSplitCmd (names pwords : List Str) (fmt : DestFmt) (dwords : List Str) (e
   | some steps, some io => some (runSplitSrc steps fmt (outOptsOf (optionsDict dwords)) enc spec io src)
   | _, _ => none
 
+/-- `treetools transitions SRC DEST SYS --transform names --params words --src-opts words [--dest-opts pos]`: the same
+    `stepsOf` glue (`getattr(transform, name)(tree, **options_dict(params))` for every name in order) -/
+def runTransitionsCmd (names pwords : List Str) (sys : TransSys) (dwords swords : List Str) (src : Source) :
+    Option (Except Err (List Str)) :=
+  match stepsOf names pwords, inOptsOf (optionsDict swords) with
+  | some steps, some io =>
+    some (runTransitionsSrc steps sys (optLookup (optionsDict dwords) "pos".toList).isSome io src)
+  | _, _ => none
+
+/-- `--markov words`: `options_dict`, then the documented defaults v 1, h 2; `nofanout` by presence.  A `v` / `h` that is
+    not a number is outside the model. -/
+def markovOf (mwords : Option (List Str)) : Option (Option MarkovOpts) :=
+  match mwords with
+  | none => some none
+  | some ws =>
+    let d := optionsDict ws
+    let num := fun (k : String) => match optLookup d k.toList with
+      | none => some none
+      | some (.int n) => some (some n)
+      | some _ => none
+    match num "v", num "h" with
+    | some v, some h => some (some (markovDefaults v h (optLookup d "nofanout".toList).isSome))
+    | _, _ => none
+
+/-- `treetools grammar SRC DEST TYPE [--markov words] --src-opts words` (tree sources): the grammar and lexicon handed to
+    the writer -/
+def runGrammarCmd (gt : GramType) (mwords : Option (List Str)) (swords : List Str) (src : Source) :
+    Option (Except Err (Grammar × Lexicon)) :=
+  match markovOf mwords, inOptsOf (optionsDict swords) with
+  | some mo, some io => some (runGrammarSrc gt mo io src)
+  | _, _ => none
+
 end TT
